@@ -61,6 +61,7 @@ package itemsfetcher
 //@   ghost gReqFn = fnval
 //@   ghost gReqIds = ids
 //@ func (*Fetcher).processNotification$1
+//@   captures requires len(hashes) >= 0 && fetchItems != nil
 //@   requires fetchItems != nil
 //@   modifies gReqN, gReqFn, gReqIds
 //@   ensures  gReqN == old(gReqN) + 1 && gReqFn == fetchItems && gReqIds == hashes
@@ -84,7 +85,9 @@ package itemsfetcher
 //@   loop 1 hint assert _k == iterold(_k) + 1 && len(toFetch) >= iterold(len(toFetch)) && len(toFetch) <= iterold(len(toFetch)) + 1 && forall(j, 0, iterold(len(toFetch)), toFetch[j] == iterold(toFetch[j]))
 //@   loop 1 hint assert len(toFetch) == iterold(len(toFetch)) + 1 ==> toFetch[len(toFetch) - 1] == _range[_k - 1]
 //@
-//@ // the request task made by the timer branch
+//@ // the request task made by the timer branch. The 'captures' clause is there for its side condition: the requester and
+//@ // the item list a task captured are variables that are assigned once, before the task is created, and by nobody else
+//@ // (a task that shares a loop variable with later iterations would ask the wrong peer)
 //@ funcfield (*Fetcher).loop$1.fetchItems
 //@   params ids
 //@   modifies gReqN, gReqFn, gReqIds
@@ -92,6 +95,7 @@ package itemsfetcher
 //@   ghost gReqFn = fnval
 //@   ghost gReqIds = ids
 //@ func (*Fetcher).loop$1
+//@   captures requires len(hashes) >= 0 && (fetchItems == nil || fetchItems != nil)
 //@   requires fetchItems != nil
 //@   modifies gReqN, gReqFn, gReqIds
 //@   ensures  gReqN == old(gReqN) + 1 && gReqFn == fetchItems && gReqIds == hashes
